@@ -713,15 +713,18 @@ func writePESOptionalHeader(w *astikit.BitsWriter, h *PESOptionalHeader) (int, e
 func writeDSMTrickMode(w *astikit.BitsWriter, m *DSMTrickMode) (int, error) {
 	b := astikit.NewBitsWriterBatch(w)
 
-	b.WriteN(m.TrickModeControl, 3)
-	if m.TrickModeControl == TrickModeControlFastForward || m.TrickModeControl == TrickModeControlFastReverse {
+	// trick_mode_control is 3 bits wide: like for any other field what the struct holds above them doesn't get out, and
+	// what follows goes by the value that is written
+	control := m.TrickModeControl & 0x7
+	b.WriteN(control, 3)
+	if control == TrickModeControlFastForward || control == TrickModeControlFastReverse {
 		b.WriteN(m.FieldID, 2)
-		b.Write(m.IntraSliceRefresh == 1) // it should be boolean
+		b.WriteN(m.IntraSliceRefresh, 1) // it should be boolean
 		b.WriteN(m.FrequencyTruncation, 2)
-	} else if m.TrickModeControl == TrickModeControlFreezeFrame {
+	} else if control == TrickModeControlFreezeFrame {
 		b.WriteN(m.FieldID, 2)
 		b.WriteN(uint8(0xff), 3) // reserved
-	} else if m.TrickModeControl == TrickModeControlSlowMotion || m.TrickModeControl == TrickModeControlSlowReverse {
+	} else if control == TrickModeControlSlowMotion || control == TrickModeControlSlowReverse {
 		b.WriteN(m.RepeatControl, 5)
 	} else {
 		b.WriteN(uint8(0xff), 5) // reserved
